@@ -116,7 +116,10 @@ def r5_format(text: str) -> List[Edit]:
     return out
 
 
-def r6_attrs_docs(text: str, keep_attrs=()) -> List[Edit]:
+_STD_DERIVES = ('Debug', 'Clone', 'Copy', 'PartialEq', 'Eq', 'PartialOrd', 'Ord', 'Hash', 'Default')
+
+
+def r6_attrs_docs(text: str, keep_attrs=(), keep_std_derives=False) -> List[Edit]:
     """R6: drop #[derive(..)], #[inline..], #[must_use], #[deprecated..], #[ts(..)], #[serde(..)],
     #[allow(..)], #[doc..] attributes and doc comments on extracted items."""
     out = []
@@ -137,6 +140,13 @@ def r6_attrs_docs(text: str, keep_attrs=()) -> List[Edit]:
             close = match_close(ct, i + 1)
             name = ct[i + 2].text
             if name in ('derive', 'inline', 'must_use', 'deprecated', 'ts', 'serde', 'allow', 'doc', 'non_exhaustive', 'default') and name not in keep_attrs:
+                if name == 'derive' and keep_std_derives:
+                    # native rendering only: keep the std-derivable traits so that code using ==, clone(), default() still compiles
+                    names = [t.text for t in ct[i + 4:close - 1] if t.kind == 'ident' and t.text in _STD_DERIVES]
+                    out.append(Edit(ct[i].start, ct[close].end, '#[derive(%s)]' % ', '.join(names) if names else '', 'R6',
+                                    'derive list reduced to std traits (native rendering)'))
+                    i = close + 1
+                    continue
                 s, end = ct[i].start, ct[close].end
                 m = re.match(r'[ \t]*\n', text[end:])
                 ls = text.rfind('\n', 0, s) + 1
